@@ -12,8 +12,9 @@ from typing import Any, Optional, SupportsInt, Union
 
 from elementpath.aliases import XPath2ParserType
 from elementpath.helpers import FloatArgType, NUMERIC_INF_OR_NAN, INVALID_NUMERIC, \
-    LazyPattern, collapse_white_spaces
+    FLOAT_NUMERAL, LazyPattern, collapse_white_spaces
 from .any_types import AnyAtomicType
+from .untyped import UntypedAtomic
 
 __all__ = ['Float', 'Float10', 'Integer', 'Int', 'Long',
            'NegativeInteger', 'PositiveInteger', 'NonNegativeInteger',
@@ -50,7 +51,7 @@ class Float(float, AnyAtomicType):
                         return float_nan
                     except NameError:
                         pass
-            elif value.lower() in INVALID_NUMERIC:
+            elif value.lower() in INVALID_NUMERIC or FLOAT_NUMERAL.match(value) is None:
                 raise cls._invalid_value(value)
         elif math.isnan(value):
             try:
@@ -184,6 +185,16 @@ class Integer(int, AnyAtomicType):
 
     _lower_bound: Optional[int] = None
     _higher_bound: Optional[int] = None
+
+    def __new__(cls, value: Union[str, SupportsInt]) -> 'Integer':
+        if isinstance(value, UntypedAtomic):
+            value = value.value
+        if isinstance(value, str):
+            # int() accepts more than the XSD lexical space (e.g. '1_0')
+            value = collapse_white_spaces(value)
+            if cls.pattern.match(value) is None:
+                raise cls._invalid_value(value)
+        return super().__new__(cls, value)
 
     def __init__(self, value: Union[str, SupportsInt]) -> None:
         """
